@@ -628,6 +628,37 @@ class PteraTransformer(NodeTransformer):
             node,
         )
 
+    def visit_With(self, node):
+        """Rewrite a with statement.
+
+        Before:
+            with open(f) as w:
+                ...
+
+        After:
+            with open(f) as w:
+                w = _ptera_interact('w', None, w)
+                ...
+        """
+        new_body = []
+        for item in node.items:
+            if item.optional_vars is not None:
+                new_body.extend(self.generate_interactions(item.optional_vars))
+        new_body.extend(self.visit_body(node.body))
+        return ast.copy_location(
+            ast.With(
+                items=[
+                    ast.withitem(
+                        context_expr=self.visit(item.context_expr),
+                        optional_vars=item.optional_vars,
+                    )
+                    for item in node.items
+                ],
+                body=new_body,
+            ),
+            node,
+        )
+
     def visit_ExceptHandler(self, node):
         if node.name is None:
             new_body = []
